@@ -98,6 +98,26 @@ theorem completion_linearizable (d : Dialect) (route : Promise → Cpl) (req : C
   exact two_step_collapse (defs d) route (completePromise req) t [.readPromise { id := req.id }] _ _ k2 db2 db3 _ rs o rfl hst
     (by simpa [Co.next, completePromise] using hnext) hw hfin fuel
 
+/-- **read with a lazy time-out.** The coroutine read the pending, overdue promise `x` in `db1` and its time-out block is applied in
+    `db2` (the guarded update reports one row), whatever happened in between: like a completion, the read is linearized at that
+    write — same answer (the promise as timed out) and same effect as the single-threaded server on `db2` -/
+theorem lazy_timeout_read_linearizable (d : Dialect) (route : Promise → Cpl) (id : String) (t : Time)
+    (db1 db2 db3 : Db) (hm : PromMono db1 db2) (hk2 : PromIds db2) (x : PromiseRow) (hx : x ∈ db1.promises) (hid : x.id = id)
+    (k2 : Time → List Cpl → Co) (tx : List Cmd) (cmd : UpdatePromiseCmd) (t1 : Time) (htx : tx = completeTx cmd t1) (hcid : cmd.id = x.id)
+    (hnext : (readPromise id t).next t [.store [.promises [promiseSelect_proj x]]] = .yield [.store tx] k2)
+    (rs : List Res) (hw : db2.execTx (defs d) tx = .ok (db3, rs)) (hone : rs.head? = some (.rows 1))
+    (o : Option Resp) (hfin : k2 t [.store rs] = .done o) (fuel : Nat) :
+    seqRun (defs d) route (readPromise id) t (fuel + 3) db2 (readPromise id t) = (db3, o) := by
+  subst htx
+  obtain ⟨dbu, r1, rs1, e1, _, hr⟩ := execTx_cons_ok _ _ _ _ _ _ hw
+  have hr1 : r1 = .rows 1 := by rw [hr] at hone; simpa using hone
+  subst hr1
+  have hstable := read_stable_until_completion d db1 db2 dbu hm hk2 x hx cmd hcid e1
+  have hst : db2.execTx (defs d) [.readPromise { id := id }] = .ok (db2, [.promises [promiseSelect_proj x]]) := by
+    simp only [Db.execTx, ← hid, hstable]
+  exact two_step_collapse (defs d) route (readPromise id) t [.readPromise { id := id }] _ _ k2 db2 db3 _ rs o rfl hst
+    (by simpa [Co.next, readPromise] using hnext) hw hfin fuel
+
 /-- **creation.** The insert is applied (one row) only where no promise with the id is stored; a read at that instant finds
     none, as the coroutine's earlier read did — and it was right about every earlier database too -/
 theorem creation_read_stable (d : Dialect) (db1 db2 db3 : Db) (hm : PromMono db1 db2) (c : CreatePromiseCmd) (n : Nat) (hn : n ≠ 0)
@@ -122,6 +142,77 @@ theorem registration_read_stable (d : Dialect) (db1 db2 db3 : Db) (hm : PromMono
     db2.exec (defs d) (.readPromise { id := x.id }) = .ok (db2, .promises [promiseSelect_proj x]) :=
   registration_sees_current_promise d db1 db2 db3 hm hk2 x hx c hid hw
 
+/-- the creation command of a `CreatePromise` request whose read was answered at clock `t` -/
+def createCmdOf (req : CreatePromiseReq) (t : Time) : CreatePromiseCmd :=
+  { id := req.id, param := req.param, timeout := req.timeout, idempotencyKey := req.idempotencyKey, tags := req.tags, createdOn := t }
+
+/-- a promise (or promise + task) insert that reports a created promise found no promise with that id -/
+theorem created_means_absent (d : Dialect) (db2 db3 : Db) (pc : CreatePromiseCmd) (ft : Option CreateTaskCmd) (r : Res)
+    (hw : db2.exec (defs d) (childCmd pc ft) = .ok (db3, r)) (hr : r = .rows 1 ∨ r = .rows2 1 1) :
+    ∀ x ∈ db2.promises, x.id ≠ pc.id := by
+  intro x hx he
+  have hex : ∃ r ∈ db2.promises, r.id = pc.id := ⟨x, hx, he⟩
+  cases ft with
+  | none =>
+    have := C16.createPromise_present (d := d) db2 pc hex
+    simp only [childCmd] at hw
+    rw [this] at hw
+    injection hw with hw; injection hw with _ h
+    rcases hr with hr | hr <;> (rw [hr] at h; cases h)
+  | some tc =>
+    simp only [childCmd, Db.exec] at hw
+    have hany : db2.promises.any (fun r => r.id == pc.id) = true := by
+      rw [List.any_eq_true]; exact ⟨x, hx, by simp [he]⟩
+    simp only [Db.createPromise, hany, if_true] at hw
+    simp at hw
+    rcases hr with hr | hr <;> (rw [hr] at hw; simp at hw)
+
+/-- **creation.** The coroutine read "no such promise" in `db1`, asked the router, and its insert — the promise, together with
+    its invocation task when the router matched — is applied in `db2` and reports a created promise.  The read repeated at
+    `db2` still finds none (`created_means_absent`), the router is a function of the promise, so the request is linearized at
+    its insert: `201`, the promise as created, and the effect of the single-threaded server on `db2`. -/
+theorem creation_linearizable (d : Dialect) (route : Promise → Cpl) (req : CreatePromiseReq) (t : Time) (db2 db3 : Db) (r : Res)
+    (hroute : routeFailed (route (promiseOfCreate (createCmdOf req t))) = false)
+    (hw : db2.exec (defs d) (childCmd (createCmdOf req t) (childTask (createCmdOf req t) none (routeOf (route (promiseOfCreate (createCmdOf req t))))))
+            = .ok (db3, r))
+    (hr : r = .rows 1 ∨ r = .rows2 1 1) (fuel : Nat) :
+    seqRun (defs d) route (createPromise req) t (fuel + 4) db2 (createPromise req t) =
+      (db3, some (.promise S_CREATED (some (promiseOfCreate (createCmdOf req t))))) := by
+  have habs := created_means_absent d db2 db3 _ _ r hw hr
+  have hread : db2.execTx (defs d) [.readPromise { id := req.id }] = .ok (db2, [.promises []]) := by
+    simp only [Db.execTx, read_misses d db2 req.id habs]
+  simp only [createCmdOf] at hroute hw ⊢
+  have hwtx := hw
+  replace hwtx : db2.execTx (defs d) [childCmd { id := req.id, param := req.param, timeout := req.timeout, idempotencyKey := req.idempotencyKey, tags := req.tags, createdOn := t } (childTask { id := req.id, param := req.param, timeout := req.timeout, idempotencyKey := req.idempotencyKey, tags := req.tags, createdOn := t } none (routeOf (route (promiseOfCreate { id := req.id, param := req.param, timeout := req.timeout, idempotencyKey := req.idempotencyKey, tags := req.tags, createdOn := t }))))] = .ok (db3, [r]) := by
+    simp [Db.execTx, hwtx]
+  simp only [createPromise, createPromiseInner, seqRun, answerAll, hread, readPromiseRow]
+  simp only [createPromiseChild, seqRun, answerAll, hroute, Bool.false_eq_true, if_false, Option.isSome_none, Bool.false_and]
+  simp only [childStore, seqRun, answerAll, hwtx]
+  rcases hr with hr | hr <;> subst hr <;> simp [seqRun, errResp]
+
+/-- **creation with its task (CreatePromiseAndTask).** As `creation_linearizable`, for the request that brings its own (claimed) task:
+    the router must match, the promise and the task — the request's task command with the router's receiver — are written by ONE
+    command in `db2`, and the answer carries both.  Linearized at that insert. -/
+theorem creation_with_task_linearizable (d : Dialect) (route : Promise → Cpl) (req : CreatePromiseReq) (tc : CreateTaskCmd) (t0 t : Time)
+    (db2 db3 : Db) (recv : String)
+    (hroute : route (promiseOfCreate (createCmdOf req t)) = .router true recv)
+    (hw : db2.exec (defs d) (.createPromiseAndTask { promiseCommand := createCmdOf req t, taskCommand := { tc with recv := recv } }) = .ok (db3, .rows2 1 1))
+    (fuel : Nat) :
+    seqRun (defs d) route (createPromiseInner req (some tc) true) t (fuel + 4) db2 (createPromiseInner req (some tc) true t0) =
+      (db3, some (.promiseTask S_CREATED (some (promiseOfCreate (createCmdOf req t)))
+        (some { id := tc.id, counter := 1, timeout := tc.timeout, processId := tc.processId, state := tc.state, rootPromiseId := req.id,
+                recv := recv, mesg := tc.mesg, attempt := 0, ttl := tc.ttl, expiresAt := tc.expiresAt, createdOn := some tc.createdOn, completedOn := none }))) := by
+  have habs := created_means_absent d db2 db3 (createCmdOf req t) (some { tc with recv := recv }) (.rows2 1 1) hw (.inr rfl)
+  have hread : db2.execTx (defs d) [.readPromise { id := req.id }] = .ok (db2, [.promises []]) := by
+    simp only [Db.execTx, read_misses d db2 req.id habs]
+  simp only [createCmdOf] at hroute hw ⊢
+  have hwtx : db2.execTx (defs d) [.createPromiseAndTask { promiseCommand := { id := req.id, param := req.param, timeout := req.timeout, idempotencyKey := req.idempotencyKey, tags := req.tags, createdOn := t }, taskCommand := { tc with recv := recv } }] = .ok (db3, [.rows2 1 1]) := by
+    simp [Db.execTx, hw]
+  simp only [createPromiseInner, seqRun, answerAll, hread, readPromiseRow]
+  simp only [createPromiseChild, seqRun, answerAll, hroute, routeFailed, routeOf, Bool.false_eq_true, if_false, Option.isSome_some, Option.isNone_some, Bool.and_false]
+  simp only [childStore, childTask, childCmd, seqRun, answerAll, hwtx]
+  simp [seqRun, promiseOfCreate]
+
 /-- **registration (callback / subscription).** The coroutine read the pending promise `x` in `db1`; its guarded insert is
     applied (one row) in `db2`, whatever happened in between.  The read repeated at `db2` answers the same row
     (`registration_read_stable`), so the request is linearized at its insert: `201`, the promise as it stands at that
@@ -141,6 +232,45 @@ theorem registration_linearizable (d : Dialect) (route : Promise → Cpl) (pid c
     simp [Db.execTx, hw]
   simp only [registerCallback, seqRun, answerAll, hread, readPromiseRow, hpend, if_true, hwtx]
   rfl
+
+/-- the response a task completion gives from the row it read -/
+def completedTaskOf (r : TaskRow) (t : Time) : Task :=
+  { (taskSelect_proj r).toTask with processId := none, state := T_COMPLETED, attempt := 0, ttl := 0, expiresAt := 0, completedOn := some t }
+
+/-- the response does not depend on WHEN the task row was read while the task stayed the same claim: identity fields never change
+    (`TaskRowLe`), the counter is the one the guard fixes, and every other field is overwritten by the completion -/
+theorem completedTaskOf_stable (x y : TaskRow) (t : Time) (hle : TaskRowLe x y) (hc : x.counter = y.counter) :
+    completedTaskOf x t = completedTaskOf y t := by
+  obtain ⟨h1, _, h3, h4, h5, h6, h7, _, _⟩ := hle
+  simp [completedTaskOf, taskSelect_proj, TaskRow.toTask, h1, h3, h4, h5, h6, h7, hc]
+
+/-- **task completion.** The coroutine read the claimed task `x` (counter `c`) earlier; its guarded update (claimed, counter `c`) is
+    applied in `db2`, where the task's row is `y` — the same task later (`TaskRowLe x y`, e.g. a heartbeat moved its lease), still
+    claimed under `c` since the guard matched.  The request is linearized at that write: the single-threaded server on `db2`
+    gives the same `201` with the same task and leaves the same database. -/
+theorem task_completion_linearizable (d : Dialect) (route : Promise → Cpl) (id : String) (counter : Int) (t : Time) (db2 db3 : Db)
+    (x y : TaskRow) (hle : TaskRowLe x y) (hy : db2.tasks.filter (fun r => r.id == id) = [y])
+    (hxc : x.counter = counter) (hys : y.state = T_CLAIMED) (hyc : y.counter = counter)
+    (hw : db2.exec (defs d) (.updateTask { id := id, processId := none, state := T_COMPLETED, counter := counter, attempt := 0, ttl := 0, expiresAt := 0, completedOn := some t, currentStates := [T_CLAIMED], currentCounter := counter }) = .ok (db3, .rows 1))
+    (fuel : Nat) :
+    seqRun (defs d) route (completeTask id counter) t (fuel + 3) db2 (completeTask id counter t) =
+      (db3, some (.task S_CREATED (some (completedTaskOf x t)))) := by
+  rw [completedTaskOf_stable x y t hle (hxc.trans hyc.symm)]
+  have hread : db2.execTx (defs d) [.readTask { id := id }] = .ok (db2, [.tasks [taskSelect_proj y]]) := by
+    have hy' : db2.tasks.filter (taskSelect_where { id := id }) = [y] := hy
+    simp only [Db.execTx, Db.exec, defs]
+    rw [hy']
+    rfl
+  have hwtx : db2.execTx (defs d) [.updateTask { id := id, processId := none, state := T_COMPLETED, counter := counter, attempt := 0, ttl := 0, expiresAt := 0, completedOn := some t, currentStates := [T_CLAIMED], currentCounter := counter }] = .ok (db3, [.rows 1]) := by
+    simp [Db.execTx, hw]
+  have h1 : ((taskSelect_proj y).toTask.state == T_COMPLETED || (taskSelect_proj y).toTask.state == T_TIMEDOUT) = false := by
+    simp [taskSelect_proj, TaskRow.toTask, hys, T_CLAIMED, T_COMPLETED, T_TIMEDOUT]
+  have h2 : ((taskSelect_proj y).toTask.state == T_INIT || (taskSelect_proj y).toTask.state == T_ENQUEUED) = false := by
+    simp [taskSelect_proj, TaskRow.toTask, hys, T_CLAIMED, T_INIT, T_ENQUEUED]
+  have h3 : ((taskSelect_proj y).toTask.counter != counter) = false := by
+    simp [taskSelect_proj, TaskRow.toTask, hyc]
+  simp only [completeTask, seqRun, answerAll, hread, readTaskRow, h1, h2, h3, Bool.false_eq_true, if_false, hwtx]
+  simp [seqRun, completedTaskOf]
 
 /-- the insert a schedule creation submits at clock `t`, and the schedule it answers with -/
 def schedCmd (req : CreateScheduleReq) (next : Int) (t : Time) : CreateScheduleCmd :=
